@@ -146,7 +146,23 @@ func (ft *fnTrans) callWrites(c *ssa.CallCommon) ([]string, bool) {
 		return nil, false
 	}
 	if fc := vc.P.cs.Funcs[key]; fc != nil {
+		if fc.Havocs {
+			var evs []string
+			for _, em := range fc.Emits {
+				evs = append(evs, vc.evComps(em.Event)...)
+			}
+			for _, name := range fc.MayEmit {
+				evs = append(evs, vc.evComps(name)...)
+			}
+			return evs, true
+		}
 		comps := []string{compTop}
+		for _, em := range fc.Emits {
+			comps = append(comps, vc.evComps(em.Event)...)
+		}
+		for _, name := range fc.MayEmit {
+			comps = append(comps, vc.evComps(name)...)
+		}
 		for _, it := range ft.staticModItems(fc, callee, c) {
 			comps = append(comps, it.comp)
 		}
@@ -186,7 +202,7 @@ func (ft *fnTrans) calleeKey(c *ssa.CallCommon) (string, *ssa.Function) {
 func effectFree(key string) bool {
 	for _, p := range []string{"fmt.", "errors.", "strings.", "strconv.", "unicode.", "unicode/utf8.", "path.", "path/filepath.",
 		modulePath + "/infrastructure/logger.", "regexp.Regexp.", "regexp.MustCompile", "math.", "net/http.StatusText", "slices.Contains", "slices.Index",
-		"time.Now", "time.Time.", "reflect.TypeOf", "github.com/gopher-fleece/runtime.", "os.Getenv", "sort.SearchStrings"} {
+		"time.Now", "time.Time.", "encoding/json.Marshal", "context.Background", "context.TODO", "reflect.TypeOf", "github.com/gopher-fleece/runtime.", "os.Getenv", "sort.SearchStrings"} {
 		if strings.HasPrefix(key, p) {
 			return true
 		}
